@@ -365,6 +365,22 @@ func (s *Sim) DumpGoroutines() string {
 	return strings.Join(out, "\n")
 }
 
+// LogTail returns the last n bytes of the core's log before a requested goroutine dump (if any).
+func (s *Sim) LogTail(n int) string {
+	b, err := os.ReadFile(s.StderrPath())
+	if err != nil {
+		return ""
+	}
+	txt := string(b)
+	if i := strings.Index(txt, dumpMarker); i >= 0 {
+		txt = txt[:i]
+	}
+	if len(txt) > n {
+		txt = txt[len(txt)-n:]
+	}
+	return txt
+}
+
 // dumpMarker distinguishes a requested SIGQUIT dump from a crash.
 const dumpMarker = "SIGQUIT: quit"
 
